@@ -165,6 +165,15 @@ def c_x_vec_ge(m, pt, d):
     return ("ge", m.flat(pt.s["x"]), -0.2)    # vector-valued (a square-matrix inequality would be a PSD constraint in Opti)
 
 
+def c_x_vec_mixed(m, pt, d):
+    # vector-valued two-sided constraint, one of whose upper bounds is infinite
+    import math
+    x = m.flat(pt.s["x"])
+    n = 2 if d["state"] == "vec2" else (4 if d["state"] == "mat22" else 1)
+    ub = m.const([math.inf] + [1.3] * (n - 1)) if n > 1 else 1.3
+    return ("between", -0.4, x, ub)
+
+
 def c_xu_between(m, pt, d):
     return ("between", -0.9, _x0(m, pt) * u0_of(m, pt.s, d), 1.1)
 
